@@ -345,11 +345,15 @@ class Struct(metaclass=MetaStruct):
             self._buffer.update_from_xbuffer(
                 self._offset, value._buffer, value._offset, value._size
             )
-            # the dynamic fields of `value` may be laid out differently
-            for field in self._d_fields:
-                self._offsets[field.index] = Int64._from_buffer(
+            # the dynamic fields of `value` may be laid out differently.
+            # The cache is rebound, not edited in place: a copy shares the
+            # dict of the object it was built from (see _inspect_args)
+            self._offsets = {
+                field.index: Int64._from_buffer(
                     self._buffer, self._offset + field.offset
                 )
+                for field in self._d_fields
+            }
         else:
             for field in self._fields:
                 if field.name in value:
